@@ -125,9 +125,10 @@ def mats(lh, p, lsm_example=None, which="MLRJ"):
 KINDS = ["gaussian", "gaussian_default", "gaussian_arraycov", "gaussian_cplx", "gaussian_tree", "studentt", "poisson",
          "vcg_real", "vcg_cplx", "vcstudentt", "ndvcg_cov", "ndvcg_prec", "ndvcg_batched",
          "categorical", "categorical_batched", "categorical_tree",
-         "amend_poisson", "amend_vcg_real", "sum_gauss_poisson", "freeze_sum"]
+         "amend_poisson", "amend_vcg_real", "sum_gauss_poisson", "freeze_sum",
+         "amend_cplx", "sum_cplx", "freeze_cplx"]
 EXACT_PULLBACK = {"gaussian", "gaussian_default", "gaussian_arraycov", "gaussian_cplx", "gaussian_tree", "studentt", "poisson",
-                  "amend_poisson", "sum_gauss_poisson", "freeze_sum"}
+                  "amend_poisson", "sum_gauss_poisson", "freeze_sum", "amend_cplx", "sum_cplx", "freeze_cplx"}
 
 
 def krng(kind, seed):
@@ -222,6 +223,32 @@ def make(kind, seed):
         I["lh"] = base["lh"].amend(f, domain=dom)
         I["p"] = xi
         I["base"], I["f"] = base, f
+    elif kind in ("amend_cplx", "sum_cplx", "freeze_cplx"):
+        # forward models with a COMPLEX Jacobian (holomorphic, dense complex matrix + quadratic term) in
+        # front of complex-data Gaussians: L = (d t)^dagger needs the conjugation of the reverse-mode derivative
+        cpx = lambda *shp: rng.normal(size=shp) + 1j * rng.normal(size=shp)
+        A, B = jnp.asarray(cpx(n, n)), jnp.asarray(cpx(n, n))
+        c1, c2 = logu(rng, 0.3, 3), logu(rng, 0.3, 3)
+        g1 = jft.Gaussian(jnp.asarray(cpx(n)), noise_cov_inv=lambda x: c1 * x, noise_std_inv=lambda x: math.sqrt(c1) * x)
+        g2 = jft.Gaussian(jnp.asarray(cpx(n)), noise_cov_inv=lambda x: c2 * x, noise_std_inv=lambda x: math.sqrt(c2) * x)
+        if kind == "amend_cplx":
+            f = lambda x: A @ x + 0.3j * x ** 2
+            I["lh"] = g1.amend(f, domain=jft.ShapeWithDtype((n,), jnp.complex128))
+            I["p"] = jnp.asarray(cpx(n))
+            I["base"], I["f"] = {"lh": g1}, f
+        else:
+            dom = jft.Vector({"u": jax.ShapeDtypeStruct((n,), jnp.complex128), "w": jax.ShapeDtypeStruct((n,), jnp.complex128)})
+            f1 = lambda xi: A @ xi.tree["u"] + 0.3j * xi.tree["w"] ** 2
+            f2 = lambda xi: B @ xi.tree["w"] * (1 + 0.2j * xi.tree["w"])
+            l1, l2 = g1.amend(f1, domain=dom), g2.amend(f2, domain=dom)
+            xi = jft.Vector({"u": jnp.asarray(cpx(n)), "w": jnp.asarray(cpx(n))})
+            I["parts"] = (l1, l2)
+            if kind == "sum_cplx":
+                I["lh"], I["p"] = l1 + l2, xi
+            else:
+                full = l1 + l2
+                lp, liquid = full.freeze(primals=xi, point_estimates=("w",))
+                I["lh"], I["p"], I["full"], I["xi"] = lp, liquid, full, xi
     elif kind in ("sum_gauss_poisson", "freeze_sum"):
         g, po = make("gaussian", seed), make("poisson", seed)
         a = rng.normal(size=n) * 0.3
@@ -460,13 +487,13 @@ def run_instance(kind, seed, with_expectations=True):
             fails.append(("amend", {"M": M.tolist(), "Jf^T M Jf": (Jf.T @ bm["M"] @ Jf).tolist()}))
         if not close(L, Jf.T @ bm["L"], **tol):
             fails.append(("amend", {"L": L.tolist(), "Jf^T L": (Jf.T @ bm["L"]).tolist()}))
-    if kind == "sum_gauss_poisson":
+    if kind in ("sum_gauss_poisson", "sum_cplx"):
         m1, m2 = mats(I["parts"][0], p), mats(I["parts"][1], p)
         if not close(M, m1["M"] + m2["M"], **tol):
             fails.append(("sum", {"M": M.tolist(), "M1+M2": (m1["M"] + m2["M"]).tolist()}))
         if not close(L @ L.T, m1["L"] @ m1["L"].T + m2["L"] @ m2["L"].T, **tol):
             fails.append(("sum", {"L L^T": (L @ L.T).tolist()}))
-    if kind == "freeze_sum":
+    if kind in ("freeze_sum", "freeze_cplx"):
         fm = mats(I["full"], I["xi"])
         # coordinates of the full domain: keys u (liquid) then w (frozen), 3 entries each
         nl = M.shape[0]
